@@ -63,6 +63,20 @@ var lockMethods = map[string]bool{"Lock": true, "RLock": true, "Unlock": true, "
 // types whose exported methods are entry points (callable concurrently by the embedding program)
 var apiTypes = map[string]bool{"Server": true, "MemoryStore": true}
 
+// set-up methods: run before the server is shared (New calls InitializeHTTP), not entry points
+var setupMethods = map[string]bool{"Server.InitializeHTTP": true}
+
+// shared objects: any other field of these types that a function reachable from
+// an entry point assigns is a location guarded by the owner's mutex (fields are
+// immutable after New unless a handler writes them); reads of such a field are Rd
+var ownerLoc = map[string]struct{ ctor, prefix, mutex string }{
+	"Server":           {"ServerField", "", "idpConfigMu"},
+	"IdentityProvider": {"ServerField", "IDP.", "idpConfigMu"},
+	"MemoryStore":      {"StoreField", "", "mu"},
+}
+
+const maybeRd = "RdMaybe " // placeholder resolved once the set of written fields is known
+
 const ext = "<ext>" // a type that is known to be outside the translated files
 
 // ---------------------------------------------------------------------------
@@ -90,6 +104,7 @@ type world struct {
 	out                map[string][]string // translated bodies
 	diag               []string
 	unknownMutexFields map[fieldKey]bool
+	fieldWrites        map[string]map[string]string // function -> loc term -> source position
 }
 
 func (w *world) addEntry(k string) {
@@ -124,7 +139,8 @@ func main() {
 
 	w := &world{fset: token.NewFileSet(), structs: map[string]map[string]ast.Expr{}, structPk: map[string]string{},
 		ifaces: map[string][]string{}, funcs: map[string]*funcInfo{}, imports: map[string]map[string]bool{},
-		entrySet: map[string]bool{}, out: map[string][]string{}, unknownMutexFields: map[fieldKey]bool{}}
+		entrySet: map[string]bool{}, out: map[string][]string{}, unknownMutexFields: map[fieldKey]bool{},
+		fieldWrites: map[string]map[string]string{}}
 	h := sha256.New()
 	var parsed []*ast.File
 	for _, f := range srcs {
@@ -155,11 +171,12 @@ func main() {
 	// entry points: exported methods of the API types + registered handlers
 	for _, k := range w.order {
 		fi := w.funcs[k]
-		if fi.decl != nil && fi.recv != "" && apiTypes[fi.recv] && ast.IsExported(fi.decl.Name.Name) {
+		if fi.decl != nil && fi.recv != "" && apiTypes[fi.recv] && ast.IsExported(fi.decl.Name.Name) && !setupMethods[k] {
 			w.addEntry(k)
 		}
 	}
 	sort.Strings(w.entries)
+	w.resolveFieldReads()
 
 	var sb strings.Builder
 	sb.WriteString("(* generated by /verif/translator from the Go source; do not edit.\n")
@@ -194,6 +211,8 @@ func main() {
 		sb.WriteString("Definition samlidp_program_checked : program := samlidp_program.\n")
 		sb.WriteString("Definition entry_points_checked : list fname := entry_points.\n")
 	}
+	sb.WriteString("\n(* rejected entry points with the first action that breaks the discipline (empty when the obligation holds) *)\n")
+	sb.WriteString("Eval vm_compute in (discipline_report samlidp_program_checked entry_points_checked).\n")
 	sb.WriteString("\n(* the obligation a change to the code's locking breaks *)\n")
 	sb.WriteString("Theorem samlidp_discipline_ok : discipline_ok samlidp_program_checked entry_points_checked = true.\n")
 	sb.WriteString("Proof. vm_compute. reflexivity. Qed.\n")
@@ -214,6 +233,104 @@ func main() {
 	for _, d := range w.diag {
 		fmt.Fprintln(os.Stderr, "translator: note:", d)
 	}
+}
+
+// effects counts the actions other than read placeholders
+func effects(acts []string) int {
+	n := 0
+	for _, a := range acts {
+		if !strings.HasPrefix(a, maybeRd) {
+			n++
+		}
+	}
+	return n
+}
+
+// resolveFieldReads: the fields of the shared objects written by functions
+// reachable from an entry point are guarded locations; reads of exactly those
+// fields become Rd, reads of never-written (immutable) fields are dropped.
+func (w *world) resolveFieldReads() {
+	reach := map[string]bool{}
+	var visit func(k string)
+	visit = func(k string) {
+		if reach[k] {
+			return
+		}
+		reach[k] = true
+		for _, a := range w.out[k] {
+			if strings.HasPrefix(a, "Call ") {
+				visit(strings.ReplaceAll(strings.Trim(strings.TrimPrefix(a, "Call "), `"`), `""`, `"`))
+			}
+		}
+	}
+	for _, e := range w.entries {
+		visit(e)
+	}
+	written := map[string]bool{}
+	var fns []string
+	for fn := range w.fieldWrites {
+		fns = append(fns, fn)
+	}
+	sort.Strings(fns)
+	for _, fn := range fns {
+		if !reach[fn] {
+			continue
+		}
+		for loc, pos := range w.fieldWrites[fn] {
+			written[loc] = true
+			w.diag = append(w.diag, fmt.Sprintf("%s: %s: shared field %s is assigned in a function reachable from an entry point; it is treated as a location guarded by its owner's mutex", fn, pos, loc))
+		}
+	}
+	for k, acts := range w.out {
+		var keep []string
+		for _, a := range acts {
+			if strings.HasPrefix(a, maybeRd) {
+				loc := strings.TrimPrefix(a, maybeRd)
+				if written[loc] {
+					keep = append(keep, "Rd "+loc)
+				}
+				continue
+			}
+			keep = append(keep, a)
+		}
+		w.out[k] = keep
+	}
+}
+
+// sharedField recognises  <expr of a shared object type>.<field>  (other than the
+// mutexes and the two maps, which have their own rules) and returns its location term
+func (t *tr) sharedField(e ast.Expr) string {
+	x, ok := e.(*ast.SelectorExpr)
+	if !ok {
+		if p, ok := e.(*ast.ParenExpr); ok {
+			return t.sharedField(p.X)
+		}
+		return ""
+	}
+	owner := t.typeOf(x.X)
+	o, ok := ownerLoc[owner]
+	if !ok {
+		return ""
+	}
+	if _, isField := t.w.structs[owner][x.Sel.Name]; !isField {
+		return "" // a method value or a promoted member
+	}
+	if _, isMu := knownMutex[fieldKey{owner, x.Sel.Name}]; isMu || t.w.unknownMutexFields[fieldKey{owner, x.Sel.Name}] {
+		return ""
+	}
+	if _, isG := guarded[fieldKey{owner, x.Sel.Name}]; isG {
+		return ""
+	}
+	return "(" + o.ctor + " " + coqStr(o.prefix+x.Sel.Name) + ")"
+}
+
+func (t *tr) fieldWrite(pos token.Pos, loc string) {
+	t.emit("Wr " + loc)
+	if t.w.fieldWrites[t.fi.key] == nil {
+		t.w.fieldWrites[t.fi.key] = map[string]string{}
+	}
+	p := t.w.fset.Position(pos)
+	t.w.fieldWrites[t.fi.key][loc] = fmt.Sprintf("%s:%d", filepath.Base(p.Filename), p.Line)
 }
 
 func coqStr(s string) string { return `"` + strings.ReplaceAll(s, `"`, `""`) + `"` }
@@ -700,7 +817,7 @@ func (t *tr) stmt(s ast.Stmt) {
 	case *ast.GoStmt:
 		n := len(t.acts)
 		t.expr(s.Call)
-		if len(t.acts) > n {
+		if effects(t.acts[n:]) > 0 {
 			t.acts = t.acts[:n]
 			t.unsupported(s.Pos(), "go statement whose body takes locks, touches guarded state or calls translated code")
 		}
@@ -739,7 +856,7 @@ func (t *tr) deferStmt(s *ast.DeferStmt) {
 	// any other deferred call: arguments are evaluated now, the call runs at function end
 	n := len(t.acts)
 	t.expr(s.Call)
-	if len(t.acts) > n {
+	if effects(t.acts[n:]) > 0 {
 		if _, isLit := s.Call.Fun.(*ast.FuncLit); isLit {
 			t.acts = t.acts[:n]
 			t.unsupported(s.Pos(), "deferred function literal with effects")
@@ -770,12 +887,25 @@ func (t *tr) target(e ast.Expr) {
 			t.emit("Wr " + l)
 			return
 		}
+		if l := t.sharedField(x.X); l != "" { // element of a map/slice field of a shared object
+			t.expr(x.Index)
+			if sel, ok := x.X.(*ast.SelectorExpr); ok {
+				t.expr(sel.X)
+			}
+			t.fieldWrite(x.Pos(), l)
+			return
+		}
 		t.expr(x.X)
 		t.expr(x.Index)
 	case *ast.SelectorExpr:
 		if l := t.guardedLoc(x); l != "" {
 			t.expr(x.X)
 			t.emit("Wr " + l)
+			return
+		}
+		if l := t.sharedField(x); l != "" {
+			t.expr(x.X)
+			t.fieldWrite(x.Pos(), l)
 			return
 		}
 		if t.mutexOf(x) != "" {
@@ -999,6 +1129,9 @@ func (t *tr) expr(e ast.Expr) {
 			return
 		}
 		t.expr(x.X)
+		if l := t.sharedField(x); l != "" {
+			t.emit(maybeRd + l)
+		}
 	case *ast.StarExpr:
 		t.expr(x.X)
 	case *ast.UnaryExpr:
@@ -1045,8 +1178,10 @@ func (t *tr) expr(e ast.Expr) {
 	case *ast.FuncLit:
 		// a function literal that is not a registered handler: allowed only if it has no effects
 		k := t.literal(x, "")
-		if len(t.w.out[k]) > 0 {
+		if effects(t.w.out[k]) > 0 {
 			t.unsupported(x.Pos(), "function literal with effects outside HandleFunc")
+		} else if len(t.w.out[k]) > 0 {
+			t.emit("Call " + coqStr(k)) // only reads of shared fields: counted where the literal is written
 		}
 	case *ast.CallExpr:
 		t.call(x)
@@ -1092,6 +1227,13 @@ func (t *tr) call(c *ast.CallExpr) {
 					if l := t.guardedLoc(c.Args[0]); l != "" {
 						t.expr(c.Args[1])
 						t.emit("Wr " + l)
+						return
+					}
+				}
+				if len(c.Args) == 2 {
+					if l := t.sharedField(c.Args[0]); l != "" {
+						t.expr(c.Args[1])
+						t.fieldWrite(c.Pos(), l)
 						return
 					}
 				}
